@@ -165,6 +165,8 @@ def compute(fact_path, jobs=None):
     fr_obs, nfr = lea_rules.frame_balance_obs([r["frames"] for r in results if r.get("frames")])
     for o in fr_obs:
         merged[(o["rule"], o["key"])] = o
+    for o in lea_rules.keyword_length_obs(counts):
+        merged[(o["rule"], o["key"])] = o
     counts.setdefault("R-FRAME-BALANCE", {})["keyword_paths"] = set(range(nfr))
     counts.setdefault("R-WS-ORDER", {})["push_runs"] = set(range(nruns))
     counts["R-WS-ORDER"]["blind_modes"] = {r["ws"]["mode"] for r in results if r.get("ws") and r["ws"]["blind"]}
@@ -185,7 +187,7 @@ def engine_hash():
     for fn in ("lea.py", "lea_prims.py", "lea_rules.py", "lea_run.py", "lea_engine.py", "chars.py", "facts.py"):
         with open(os.path.join(here, fn), "rb") as f:
             h.update(f.read())
-    for fn in ("ws_terminated_modes.json", "spellings.json", "preconsume_benign.json"):
+    for fn in ("ws_terminated_modes.json", "spellings.json", "preconsume_benign.json", "stop_sets.json"):
         with open(os.path.join(os.path.dirname(here), "tables", fn), "rb") as f:
             h.update(f.read())
     return h.hexdigest()[:12]
